@@ -1,12 +1,16 @@
 package c14
 
 import (
+	"bytes"
 	"context"
+	"encoding/json"
 	"fmt"
+	"os"
 	"sort"
 	"strings"
 	"testing"
 
+	"github.com/cosmos/cosmos-sdk/codec"
 	sdk "github.com/cosmos/cosmos-sdk/types"
 	"pgregory.net/rapid"
 
@@ -27,7 +31,7 @@ import (
 const c14Sentinel = "[do-not-modify]"
 
 type c14Op struct {
-	Kind  string `json:"kind"` // issue | mint | edit | transfer | burn | xferdenom
+	Kind  string `json:"kind"` // issue | mint | edit | transfer | burn | xferdenom | reimport
 	Who   int    `json:"who"`
 	To    int    `json:"to,omitempty"`
 	Denom string `json:"denom"`
@@ -38,6 +42,10 @@ type c14Op struct {
 	Data  string `json:"data,omitempty"`
 	MintR bool   `json:"mint_restricted,omitempty"`
 	UpdR  bool   `json:"update_restricted,omitempty"`
+	// issue only: the remaining optional class fields
+	Schema string `json:"schema,omitempty"`
+	Symbol string `json:"symbol,omitempty"`
+	Desc   string `json:"desc,omitempty"`
 }
 
 type c14Class struct {
@@ -63,7 +71,22 @@ type c14Machine struct {
 	nSelfXfer, nSentinelXfer, nChangeXfer, nStrangerRefused      int
 	nAccepted, nRejected, nLax, nInvalidRefused                  int
 	flagCombos                                                   map[string]bool
+
+	// genesis round trips (restart of the module from its own export)
+	nReimport, nReimportMultiClass, nReimportRestricted, nReimportHanded, nReimportMoved, nReimportBurned int
+	sinceReimport                                                                                         int // messages since the last round trip (-1 = none yet)
+	nAcceptedAfterReimport, nStrangerAfterReimport, nRestrictedAfterReimport                              int
+	nRemintAfterReimport, nCreatorActsAfterReimport                                                       int
+	skipped                                                                                               map[string]int
+	// optional fields and actors
+	cnt map[string]int
+	// VERIF_C14_AVOID_OVERLONG_URI=1: transfers never carry a uri longer than the 256 bytes that mint, edit and the
+	// genesis validation allow (MsgTransferNFT does not check the length; the export of such a state is refused on
+	// import: C14/reimport-rejects-uri-set-by-transfer)
+	avoidOverlongURI bool
 }
+
+const c14SkipOverlong = "skipped:C14/reimport-rejects-uri-set-by-transfer"
 
 const c14Users = 4 // senders; recipients additionally include user 4
 
@@ -84,7 +107,8 @@ var (
 
 func newC14() pbt.Machine[c14Op] {
 	return &c14Machine{c: gen.Env().NewCase(), classes: map[string]*c14Class{}, toks: map[string]map[string]*c14Tok{},
-		burned: map[string]bool{}, handed: map[string]bool{}, flagCombos: map[string]bool{}}
+		burned: map[string]bool{}, handed: map[string]bool{}, flagCombos: map[string]bool{}, cnt: map[string]int{}, skipped: map[string]int{},
+		sinceReimport: -1, avoidOverlongURI: os.Getenv("VERIF_C14_AVOID_OVERLONG_URI") != ""}
 }
 
 // ---------------------------------------------------------------------------------------------
@@ -215,6 +239,19 @@ func (m *c14Machine) drawWho(t *rapid.T, rightful string) int {
 	return rapid.IntRange(0, c14Users-1).Draw(t, "who")
 }
 
+// drawTokenActor: the token owner 2 times in 3, else the class creator (who has no say over a token he does not
+// own) or anybody.
+func (m *c14Machine) drawTokenActor(t *rapid.T, d, id string) int {
+	rightful := ""
+	if tk := m.toks[d][id]; tk != nil {
+		rightful = tk.owner
+	}
+	if cl := m.classes[d]; cl != nil && rightful != "" && cl.creator != rightful && rapid.IntRange(0, 5).Draw(t, "class-creator-acts") == 0 {
+		return m.userOf(cl.creator)
+	}
+	return m.drawWho(t, rightful)
+}
+
 func (m *c14Machine) drawFields(t *rapid.T, op *c14Op, sentinelBias int) {
 	pick := func(label string, alphabet []string) string {
 		if rapid.IntRange(0, 9).Draw(t, label+"/keep") < sentinelBias {
@@ -237,9 +274,24 @@ func (m *c14Machine) drawFields(t *rapid.T, op *c14Op, sentinelBias int) {
 }
 
 func (m *c14Machine) Next(t *rapid.T) c14Op {
-	nTok := 0
+	nTok, holding := 0, 0
 	for _, ts := range m.toks {
 		nTok += len(ts)
+		if len(ts) > 0 {
+			holding++
+		}
+	}
+	// restart of the module from its own exported genesis: at any point of the history, more often while the state is
+	// one a restart has not seen yet (tokens in two or more classes)
+	if len(m.classes) > 0 {
+		odds := 40
+		if holding >= 2 && m.nReimportMultiClass == 0 {
+			odds = 8
+		}
+		// (rapid draws small values far more often than large ones; the remainder of a large draw is close to uniform)
+		if rapid.IntRange(0, 1<<20).Draw(t, "reimport")%odds == odds-1 {
+			return c14Op{Kind: "reimport"}
+		}
 	}
 	k := rapid.IntRange(0, 99).Draw(t, "kind")
 	if len(m.classes) == 0 && k >= 20 {
@@ -252,9 +304,19 @@ func (m *c14Machine) Next(t *rapid.T) c14Op {
 	case k < 12: // issue
 		op := c14Op{Kind: "issue", Who: rapid.IntRange(0, c14Users-1).Draw(t, "who"), Denom: m.drawClass(t, false),
 			MintR: rapid.Bool().Draw(t, "mintR"), UpdR: rapid.Bool().Draw(t, "updR"),
-			Name: rapid.SampledFrom([]string{"", "cn1", "cn2"}).Draw(t, "cname"),
-			URI:  rapid.SampledFrom([]string{"", "ipfs://c"}).Draw(t, "curi"),
-			Data: rapid.SampledFrom([]string{"", `{"c":1}`, c14Sentinel, `{bad`}).Draw(t, "cdata")}
+			Name:   rapid.SampledFrom([]string{"", "cn1", "cn2"}).Draw(t, "cname"),
+			URI:    rapid.SampledFrom([]string{"", "ipfs://c"}).Draw(t, "curi"),
+			Hash:   rapid.SampledFrom([]string{"", "ch1"}).Draw(t, "chash"),
+			Data:   rapid.SampledFrom([]string{"", `{"c":1}`, c14Sentinel, `{bad`}).Draw(t, "cdata"),
+			Schema: rapid.SampledFrom([]string{"", "sch", `{"type":"object"}`}).Draw(t, "cschema"),
+			Symbol: rapid.SampledFrom([]string{"", "sym"}).Draw(t, "csymbol"),
+			Desc:   rapid.SampledFrom([]string{"", "d"}).Draw(t, "cdesc")}
+		switch rapid.IntRange(0, 7).Draw(t, "call") {
+		case 0: // every optional field left empty
+			op.Name, op.URI, op.Hash, op.Data, op.Schema, op.Symbol, op.Desc = "", "", "", "", "", "", ""
+		case 1: // every optional field given
+			op.Name, op.URI, op.Hash, op.Data, op.Schema, op.Symbol, op.Desc = "cn1", "ipfs://c", "ch1", `{"c":1}`, "sch", "sym", "d"
+		}
 		if rapid.IntRange(0, 9).Draw(t, "cdata-ok") < 8 && !c14JSONOK(op.Data) {
 			op.Data = ""
 		}
@@ -267,7 +329,21 @@ func (m *c14Machine) Next(t *rapid.T) c14Op {
 		}
 		op := c14Op{Kind: "mint", Denom: d, ID: m.drawToken(t, d, false), Who: m.drawWho(t, rightful),
 			To: rapid.IntRange(0, c14Users).Draw(t, "to")}
+		switch rapid.IntRange(0, 5).Draw(t, "to/mode") {
+		case 0: // the sender himself
+			op.To = op.Who
+		case 1: // the class creator (a stranger minting "for" the creator gains nothing by it)
+			if rightful != "" {
+				op.To = m.userOf(rightful)
+			}
+		}
 		m.drawFields(t, &op, 0)
+		switch rapid.IntRange(0, 9).Draw(t, "mall") {
+		case 0: // every optional field left empty
+			op.Name, op.URI, op.Hash, op.Data = "", "", "", ""
+		case 1: // every optional field given
+			op.Name, op.URI, op.Hash, op.Data = "n1", "ipfs://a", "h1", `{"k":1}`
+		}
 		if rapid.IntRange(0, 9).Draw(t, "mint-clean") < 8 && op.Data == c14Sentinel {
 			op.Data = "" // the sentinel is not valid JSON for a mint
 		}
@@ -275,21 +351,22 @@ func (m *c14Machine) Next(t *rapid.T) c14Op {
 	case k < 60: // edit
 		d := m.drawClass(t, true)
 		id := m.drawToken(t, d, true)
-		rightful := ""
-		if tk := m.toks[d][id]; tk != nil {
-			rightful = tk.owner
-		}
-		op := c14Op{Kind: "edit", Denom: d, ID: id, Who: m.drawWho(t, rightful)}
+		op := c14Op{Kind: "edit", Denom: d, ID: id, Who: m.drawTokenActor(t, d, id)}
 		m.drawFields(t, &op, 4)
+		switch rapid.IntRange(0, 9).Draw(t, "edit-mode") {
+		case 0: // an edit that keeps every field
+			op.Name, op.URI, op.Hash, op.Data = c14Sentinel, c14Sentinel, c14Sentinel, c14Sentinel
+		case 1: // an edit that replaces every field
+			op.Name = rapid.SampledFrom([]string{"n1", "n2", ""}).Draw(t, "name!")
+			op.URI = rapid.SampledFrom([]string{"ipfs://a", "ipfs://b", ""}).Draw(t, "uri!")
+			op.Hash = rapid.SampledFrom([]string{"h1", "h2", ""}).Draw(t, "hash!")
+			op.Data = rapid.SampledFrom([]string{`{"k":1}`, `"s"`, `7`, ""}).Draw(t, "data!")
+		}
 		return op
 	case k < 80: // transfer
 		d := m.drawClass(t, true)
 		id := m.drawToken(t, d, true)
-		rightful := ""
-		if tk := m.toks[d][id]; tk != nil {
-			rightful = tk.owner
-		}
-		op := c14Op{Kind: "transfer", Denom: d, ID: id, Who: m.drawWho(t, rightful), To: rapid.IntRange(0, c14Users).Draw(t, "to")}
+		op := c14Op{Kind: "transfer", Denom: d, ID: id, Who: m.drawTokenActor(t, d, id), To: rapid.IntRange(0, c14Users).Draw(t, "to")}
 		switch rapid.IntRange(0, 3).Draw(t, "xfermode") {
 		case 0, 1: // plain: every field kept
 			op.Name, op.URI, op.Hash, op.Data = c14Sentinel, c14Sentinel, c14Sentinel, c14Sentinel
@@ -311,22 +388,26 @@ func (m *c14Machine) Next(t *rapid.T) c14Op {
 		if rapid.IntRange(0, 7).Draw(t, "self") == 0 {
 			op.To = op.Who
 		}
+		if m.avoidOverlongURI && len(op.URI) > 256 { // known finding excluded by construction
+			op.URI = c14MaxURI
+			m.skipped[c14SkipOverlong]++
+		}
 		return op
 	case k < 90: // burn
 		d := m.drawClass(t, true)
 		id := m.drawToken(t, d, true)
-		rightful := ""
-		if tk := m.toks[d][id]; tk != nil {
-			rightful = tk.owner
-		}
-		return c14Op{Kind: "burn", Denom: d, ID: id, Who: m.drawWho(t, rightful)}
+		return c14Op{Kind: "burn", Denom: d, ID: id, Who: m.drawTokenActor(t, d, id)}
 	default: // class hand-over
 		d := m.drawClass(t, true)
 		rightful := ""
 		if cl := m.classes[d]; cl != nil {
 			rightful = cl.creator
 		}
-		return c14Op{Kind: "xferdenom", Denom: d, Who: m.drawWho(t, rightful), To: rapid.IntRange(0, c14Users).Draw(t, "to")}
+		op := c14Op{Kind: "xferdenom", Denom: d, Who: m.drawWho(t, rightful), To: rapid.IntRange(0, c14Users).Draw(t, "to")}
+		if rapid.IntRange(0, 7).Draw(t, "self") == 0 {
+			op.To = op.Who // hand-over to the current creator
+		}
+		return op
 	}
 }
 
@@ -334,6 +415,9 @@ func (m *c14Machine) Next(t *rapid.T) c14Op {
 // model step + execution
 
 func (m *c14Machine) Apply(op c14Op) error {
+	if op.Kind == "reimport" {
+		return m.applyReimport()
+	}
 	if op.Who < 0 || op.Who >= len(m.c.E.Users) || op.To < 0 || op.To >= len(m.c.E.Users) {
 		return fmt.Errorf("bad replay op %+v", op)
 	}
@@ -351,10 +435,34 @@ func (m *c14Machine) Apply(op c14Op) error {
 	why := ""     // property clause that forbids acceptance
 	var commit func()
 	c0, c1, c2 := m.nStrangerRefused, m.nRestrictedEdit, m.nRestrictedXfer
+	var notes []string // optional-field / actor classes of this message, counted when it is accepted
+	refusedNote := ""  // class counted when a well-formed message is refused
+	note := func(c bool, name string) {
+		if c {
+			notes = append(notes, name)
+		}
+	}
+	sentinels := 0
+	for _, f := range []string{op.Name, op.URI, op.Hash, op.Data} {
+		if f == c14Sentinel {
+			sentinels++
+		}
+	}
+	creatorNotOwner := cl != nil && tk != nil && cl.creator == sender && tk.owner != sender
 	switch op.Kind {
 	case "issue":
-		msg = &nfttypes.MsgIssueDenom{Id: op.Denom, Name: op.Name, Schema: "sch", Sender: sender, Symbol: "sym",
-			MintRestricted: op.MintR, UpdateRestricted: op.UpdR, Description: "d", Uri: op.URI, UriHash: op.Hash, Data: op.Data}
+		msg = &nfttypes.MsgIssueDenom{Id: op.Denom, Name: op.Name, Schema: op.Schema, Sender: sender, Symbol: op.Symbol,
+			MintRestricted: op.MintR, UpdateRestricted: op.UpdR, Description: op.Desc, Uri: op.URI, UriHash: op.Hash, Data: op.Data}
+		given := 0
+		for _, f := range []string{op.Name, op.Schema, op.Symbol, op.Desc, op.URI, op.Hash, op.Data} {
+			if f != "" {
+				given++
+			}
+		}
+		note(given == 0, "issue-optional-fields-all-empty")
+		note(given == 7, "issue-optional-fields-all-given")
+		note(given > 0 && given < 7, "issue-optional-fields-mixed")
+		note(op.Hash != "", "issue-with-uri-hash")
 		valid = c14DenomIDOK(op.Denom) && !c14Keyword(op.Denom) && (op.Data == "" || c14JSONOK(op.Data))
 		switch {
 		case cl != nil:
@@ -363,8 +471,8 @@ func (m *c14Machine) Apply(op c14Op) error {
 			accept = true
 		}
 		commit = func() {
-			m.classes[op.Denom] = &c14Class{creator: sender, mintR: op.MintR, updR: op.UpdR, name: op.Name, schema: "sch",
-				symbol: "sym", desc: "d", uri: op.URI, uriHash: op.Hash, data: op.Data}
+			m.classes[op.Denom] = &c14Class{creator: sender, mintR: op.MintR, updR: op.UpdR, name: op.Name, schema: op.Schema,
+				symbol: op.Symbol, desc: op.Desc, uri: op.URI, uriHash: op.Hash, data: op.Data}
 			m.toks[op.Denom] = map[string]*c14Tok{}
 			m.flagCombos[fmt.Sprintf("class-flags-mintR=%v-updR=%v", op.MintR, op.UpdR)] = true
 		}
@@ -379,15 +487,33 @@ func (m *c14Machine) Apply(op c14Op) error {
 		case cl.mintR && cl.creator != sender:
 			why = "C14/restricted-mint-by-stranger"
 			m.nStrangerRefused++
+			if cl.creator == rcpt {
+				refusedNote = "restricted-mint-by-stranger-for-the-creator-refused"
+			} else {
+				refusedNote = "restricted-mint-by-stranger-refused"
+			}
 		case tk != nil:
 			why = "C14/token-id-reused"
 		default:
 			accept = true
 		}
+		if cl != nil {
+			note(rcpt == sender, "mint-to-sender")
+			note(rcpt != sender, "mint-to-other")
+			note(cl.mintR && rcpt != sender, "restricted-mint-by-creator-to-other")
+			note(cl.mintR && rcpt == sender, "restricted-mint-by-creator-to-himself")
+			note(!cl.mintR && cl.creator != sender, "unrestricted-mint-by-stranger")
+			note(!cl.mintR && cl.creator != sender && cl.creator == rcpt, "unrestricted-mint-by-stranger-for-the-creator")
+			note(op.Name == "" && op.URI == "" && op.Hash == "" && op.Data == "", "mint-optional-fields-all-empty")
+			note(op.Name != "" && op.URI != "" && op.Hash != "" && op.Data != "", "mint-optional-fields-all-given")
+		}
 		commit = func() {
 			m.toks[op.Denom][op.ID] = &c14Tok{owner: rcpt, name: op.Name, uri: op.URI, hash: op.Hash, data: op.Data}
 			if m.burned[op.Denom+"|"+op.ID] {
 				m.nBurnRemint++
+				if m.sinceReimport >= 0 {
+					m.nRemintAfterReimport++
+				}
 			}
 			if m.handed[op.Denom] {
 				m.nHandoverMint++
@@ -405,22 +531,34 @@ func (m *c14Machine) Apply(op c14Op) error {
 		case tk.owner != sender:
 			why = "C14/edit-by-non-owner"
 			m.nStrangerRefused++
+			if creatorNotOwner {
+				refusedNote = "edit-by-class-creator-who-is-not-the-owner-refused"
+			}
 		default:
 			accept = true
 		}
+		note(sentinels == 4, "edit-all-do-not-modify")
+		note(sentinels > 0 && sentinels < 4, "edit-some-do-not-modify")
+		note(sentinels == 0, "edit-no-do-not-modify")
+		note(op.Name == "" || op.URI == "" || op.Hash == "" || op.Data == "", "edit-empties-a-field")
 		commit = func() {
 			tk.name, tk.uri, tk.hash, tk.data = c14Mod(tk.name, op.Name), c14Mod(tk.uri, op.URI), c14Mod(tk.hash, op.Hash), c14Mod(tk.data, op.Data)
 		}
 	case "transfer":
 		msg = &nfttypes.MsgTransferNFT{Id: op.ID, DenomId: op.Denom, Name: op.Name, URI: op.URI, UriHash: op.Hash, Data: op.Data,
 			Sender: sender, Recipient: rcpt}
-		valid = c14DenomIDOK(op.Denom) && c14IDOK(op.ID) && (op.Data == "" || op.Data == c14Sentinel || c14JSONOK(op.Data))
+		// the uri bound is documented for the token (mint, edit and the genesis validation enforce it); where the transfer
+		// message is laxer the model follows the code, as for every other input rule
+		valid = c14DenomIDOK(op.Denom) && c14IDOK(op.ID) && len(op.URI) <= 256 && (op.Data == "" || op.Data == c14Sentinel || c14JSONOK(op.Data))
 		switch {
 		case cl == nil || tk == nil:
 			why = "C14/transfer-of-missing-token"
 		case tk.owner != sender:
 			why = "C14/transfer-by-non-owner"
 			m.nStrangerRefused++
+			if creatorNotOwner {
+				refusedNote = "transfer-by-class-creator-who-is-not-the-owner-refused"
+			}
 		case cl.updR && changed:
 			why = "C14/restricted-class-transfer-with-changes"
 			m.nRestrictedXfer++
@@ -438,6 +576,9 @@ func (m *c14Machine) Apply(op c14Op) error {
 			} else {
 				m.nSentinelXfer++
 			}
+			if len(op.URI) > 256 {
+				m.cnt["transfer-sets-overlong-uri(validation-laxer-than-on-mint-and-edit)"]++
+			}
 		}
 	case "burn":
 		msg = &nfttypes.MsgBurnNFT{Id: op.ID, DenomId: op.Denom, Sender: sender}
@@ -448,9 +589,14 @@ func (m *c14Machine) Apply(op c14Op) error {
 		case tk.owner != sender:
 			why = "C14/burn-by-non-owner"
 			m.nStrangerRefused++
+			if creatorNotOwner {
+				refusedNote = "burn-by-class-creator-who-is-not-the-owner-refused"
+			}
 		default:
 			accept = true
 		}
+		note(cl != nil && cl.creator == sender, "burn-by-owner-who-is-the-class-creator")
+		note(cl != nil && cl.creator != sender, "burn-by-owner-who-is-not-the-class-creator")
 		commit = func() {
 			delete(m.toks[op.Denom], op.ID)
 			m.burned[op.Denom+"|"+op.ID] = true
@@ -467,6 +613,8 @@ func (m *c14Machine) Apply(op c14Op) error {
 		default:
 			accept = true
 		}
+		note(rcpt == sender, "class-handover-to-current-creator")
+		note(rcpt != sender, "class-handover-to-other")
 		commit = func() {
 			cl.creator = rcpt
 			m.handed[op.Denom] = true
@@ -496,13 +644,108 @@ func (m *c14Machine) Apply(op c14Op) error {
 		}
 		commit()
 		m.nAccepted++
+		for _, n := range notes {
+			m.cnt[n]++
+		}
+		if m.sinceReimport >= 0 {
+			m.nAcceptedAfterReimport++
+			if cl != nil && cl.creator == sender && (op.Kind == "mint" && cl.mintR || op.Kind == "xferdenom") {
+				m.nCreatorActsAfterReimport++
+			}
+		}
 	} else {
 		m.nRejected++
 		if !valid {
 			m.nInvalidRefused++
+			if op.Denom == "" || (op.Kind != "issue" && op.Kind != "xferdenom" && op.ID == "") {
+				m.cnt["empty-id-refused"]++
+			}
+		} else {
+			if refusedNote != "" {
+				m.cnt[refusedNote]++
+			}
+			if m.sinceReimport >= 0 {
+				if m.nStrangerRefused > c0 {
+					m.nStrangerAfterReimport++
+				}
+				if m.nRestrictedEdit > c1 || m.nRestrictedXfer > c2 {
+					m.nRestrictedAfterReimport++
+				}
+			}
 		}
 	}
+	if m.sinceReimport >= 0 {
+		m.sinceReimport++
+	}
 	return m.check()
+}
+
+// ---------------------------------------------------------------------------------------------
+// restart: the module is exported, its store wiped, the export imported; the history goes on
+
+func (m *c14Machine) exportJSON() json.RawMessage {
+	mod, ok := m.c.E.App.ModuleManager.Modules["nft"].(interface {
+		ExportGenesis(sdk.Context, codec.JSONCodec) json.RawMessage
+	})
+	if !ok {
+		panic("nft module has no ExportGenesis of the expected shape")
+	}
+	return mod.ExportGenesis(m.c.Ctx, m.c.E.App.AppCodec())
+}
+
+// applyReimport takes the nft module through its own genesis. The genesis carries every class (all fields, the
+// restriction flags, the creator) and every token (owner, name, uri, uri_hash, data); nothing else lives in the store.
+// The model therefore stays as it is: every clause of check() holds on the restored state, and who may do what is the
+// same as before for the rest of the history.
+func (m *c14Machine) applyReimport() error {
+	holding, restricted, handed, moved, burned, overlong := 0, false, false, false, false, ""
+	for d, ts := range m.toks {
+		if len(ts) > 0 {
+			holding++
+			restricted = restricted || m.classes[d].mintR || m.classes[d].updR
+		}
+		handed = handed || m.handed[d]
+		for id, tk := range ts {
+			moved = moved || tk.owner != m.classes[d].creator
+			if len(tk.uri) > 256 && (overlong == "" || d+"/"+id < overlong) {
+				overlong = d + "/" + id
+			}
+		}
+	}
+	for range m.burned {
+		burned = true
+	}
+	if overlong != "" && m.avoidOverlongURI { // only reachable when replaying a history generated without the switch
+		m.skipped[c14SkipOverlong]++
+		return nil
+	}
+	before, stage, err := m.c.Reimport("nft")
+	if err != nil {
+		if overlong != "" && stage == "import" {
+			return pbt.Failf("C14/reimport-rejects-uri-set-by-transfer", "token %s got a uri longer than 256 bytes through an accepted transfer; the module's own export is refused on import: %v", overlong, err)
+		}
+		return pbt.Failf("C14/reimport-"+stage, "nft genesis round trip with %d classes (%d holding tokens): %v\nexported: %s", len(m.classes), holding, err, before)
+	}
+	if err := m.check(); err != nil { // ownership, restrictions, creators, every record as before
+		return err
+	}
+	if after := m.exportJSON(); !bytes.Equal(before, after) {
+		return pbt.Failf("C14/reimport-export-differs", "the restored state exports a different genesis\nbefore: %s\nafter:  %s", before, after)
+	}
+	b2i := func(b bool) int {
+		if b {
+			return 1
+		}
+		return 0
+	}
+	m.nReimport++
+	m.nReimportMultiClass += b2i(holding >= 2)
+	m.nReimportRestricted += b2i(restricted)
+	m.nReimportHanded += b2i(handed)
+	m.nReimportMoved += b2i(moved)
+	m.nReimportBurned += b2i(burned)
+	m.sinceReimport = 0
+	return nil
 }
 
 // ---------------------------------------------------------------------------------------------
@@ -673,10 +916,41 @@ func (m *c14Machine) Classify() (bool, []string) {
 	add(m.nAccepted >= 10, "accepted>=10")
 	add(m.nInvalidRefused > 0, "malformed-input-refused")
 	add(m.nLax > 0, "malformed-input-accepted(validation-laxer-than-documented)")
+	add(m.nReimport > 0, "reimport")
+	add(m.nReimport >= 2, "reimport-twice")
+	add(m.nReimportMultiClass > 0, "reimport-with-tokens-in-2+-classes")
+	add(m.nReimportRestricted > 0, "reimport-with-tokens-in-restricted-class")
+	add(m.nReimportHanded > 0, "reimport-with-handed-over-class")
+	add(m.nReimportMoved > 0, "reimport-with-token-not-owned-by-class-creator")
+	add(m.nReimportBurned > 0, "reimport-after-burn")
+	add(m.nAcceptedAfterReimport > 0, "reimport-then-accepted-message")
+	add(m.nStrangerAfterReimport > 0, "reimport-then-non-entitled-actor-refused")
+	add(m.nRestrictedAfterReimport > 0, "reimport-then-restricted-class-change-refused")
+	add(m.nCreatorActsAfterReimport > 0, "reimport-then-class-creator-uses-his-authority")
+	add(m.nRemintAfterReimport > 0, "reimport-then-remint-of-burned-id")
+	for _, n := range c14Notes {
+		add(m.cnt[n] > 0, n)
+	}
+	for n := range m.skipped {
+		cl = append(cl, n)
+	}
 	return m.nBurnRemint > 0 || m.nHandoverMint > 0 || m.nRestrictedEdit > 0, cl
 }
 
-const c14Rule = "rapid state machine over 4 class ids (+10 odd ids) x 4 token ids (+5 odd ids), 4 senders, 5 recipients: issue (all flag combinations) / mint / edit / transfer (all-sentinel, one field, mixed; to self) / burn / class hand-over, the rightful actor 2 times in 3; non-trivial = history with a burn-then-remint of one id, or a class hand-over followed by a mint, or an edit attempt in an update-restricted class; distinct by SHA-256 of the op list"
+var c14Notes = []string{
+	"issue-optional-fields-all-empty", "issue-optional-fields-all-given", "issue-optional-fields-mixed", "issue-with-uri-hash",
+	"mint-to-sender", "mint-to-other", "restricted-mint-by-creator-to-other", "restricted-mint-by-creator-to-himself",
+	"restricted-mint-by-stranger-refused", "restricted-mint-by-stranger-for-the-creator-refused",
+	"unrestricted-mint-by-stranger", "unrestricted-mint-by-stranger-for-the-creator",
+	"mint-optional-fields-all-empty", "mint-optional-fields-all-given",
+	"edit-all-do-not-modify", "edit-some-do-not-modify", "edit-no-do-not-modify", "edit-empties-a-field",
+	"edit-by-class-creator-who-is-not-the-owner-refused", "transfer-by-class-creator-who-is-not-the-owner-refused",
+	"burn-by-class-creator-who-is-not-the-owner-refused", "burn-by-owner-who-is-the-class-creator", "burn-by-owner-who-is-not-the-class-creator",
+	"class-handover-to-current-creator", "class-handover-to-other", "empty-id-refused",
+	"transfer-sets-overlong-uri(validation-laxer-than-on-mint-and-edit)",
+}
+
+const c14Rule = "rapid state machine over 4 class ids (+10 odd ids) x 4 token ids (+5 odd ids), 4 senders, 5 recipients: issue (all flag combinations, optional fields empty/given) / mint (to the sender, to another account, for the class creator; optional fields empty/given) / edit (all, some, no do-not-modify placeholders) / transfer (all-sentinel, one field, mixed; to self) / burn / class hand-over (incl. to the current creator) / restart of the module from its own exported genesis (the model continues unchanged), the rightful actor 2 times in 3, the class creator acting on tokens he does not own 1 time in 6; non-trivial = history with a burn-then-remint of one id, or a class hand-over followed by a mint, or an edit attempt in an update-restricted class; distinct by SHA-256 of the op list"
 
 func init() { pbt.RegisterMachine("c14", newC14) }
 
